@@ -10,6 +10,7 @@
     rw.sets series|parallel || <line> …               -> a,b;c,d …   (the sets found, members sorted)
     rw.preserved [componentwise] [branch] <old>:<new>… || <orig lines> ### <new lines> ### V n=val … ### I c=val … ### V … ### I …
                                                       -> ok | V:<node> | I:<cpt>    (Spec.firstDifference)
+    rw.renaming || <orig lines> ### <new lines>       -> ok a:b,… | not-a-function <node> | not-injective <n1> <n2> | shape
     rw.retained [componentwise] <old>:<new>… || <orig lines> ### <new lines>  -> nodes a,b,… cpts x,y,…
   Lines are in the restricted grammar `name nodes… [dc|ac|step|s|noise] [val [ic]] [extra…]` with rational values.
 -/
@@ -141,6 +142,21 @@ def handle (toks : List String) : Option String :=
             match augmentNodeMap net (parseMap head) with
             | .error e => "err:" ++ e
             | .ok m => ",".intercalate ((allNodes net).map (fun n => n ++ ":" ++ lookupLast m n))
+        else if cmd = "rw.renaming" then
+          match splitOnTok "###" body with
+          | [o, n] =>
+            match parseNet (splitOnTok "|" o), parseNet (splitOnTok "|" n) with
+            | .ok orig, .ok new =>
+              match renamingOf orig new with
+              | none => "shape"
+              | some m =>
+                match notFunction m, notInjective m with
+                | some x, _ => "not-a-function " ++ x
+                | none, some (x, y) => "not-injective " ++ x ++ " " ++ y
+                | none, none => "ok " ++ ",".intercalate (m.map (fun p => p.1 ++ ":" ++ p.2))
+            | .error e, _ => "bad-net:" ++ e
+            | _, .error e => "bad-net:" ++ e
+          | _ => "bad-request"
         else if cmd = "rw.preserved" || cmd = "rw.retained" then
           let mode : Mode := if head.contains "componentwise" then .componentwise else .strict
           let m := parseMap head
